@@ -25,9 +25,11 @@ under the requirement-indexed specification; Stage D logic values and assertions
 work-list loop and final assembly.  `tools/props/C01.json` (`level_note`) says which stages are proved.
 -/
 import Rooc.Proofs.LinGadgets
+import Rooc.Proofs.LinAssemble
 namespace Rooc.Props.C01
 open Rooc Rooc.Lin
 open Rooc.Lin.Gadget (B01 DomMax DomMin)
+open Rooc.Sem Rooc.LinP
 
 variable {K : Type} [Field K] [LinearOrder K] [IsStrictOrderedRing K]
 
@@ -280,5 +282,103 @@ theorem prune_min_iff (ι : K → B) (hι : ∀ a b, ι a ≤ ι b ↔ a ≤ b) 
 
 end prune
 
+
+/-! ## Stage B — the affine fragment, and C01 end to end on purely affine models
+
+Vocabulary (definitions in `Rooc/Proofs/Lin*.lean`, namespace `Rooc.LinP`):
+* `ctxVal ρ c = Σ coeff·ρ(var) + rhs` for a linearization context `c : Ctx (Ext K)`; `CtxOK c` = all
+  coefficients and the constant are finite and the variable names are distinct (the `IndexMap` invariant);
+  `termsVal ρ ts` the same sum for a bare term list.
+* `arithOnly e` = `e` is built from literals, variables, `+ - * /` and unary minus; `varsOf e` its variables.
+* `AffineModel m d` = objective and every constraint are `arithOnly` comparisons (no bare assertion) over
+  variables declared in `d` with a usage mark; `DefinedC c` = both sides of `c` evaluate at every assignment;
+  `DomRel m d` = `d` has distinct names, only shrinks `m.domain`, and contains every source-feasible point.
+* `FlattenSound K`, `SimplifySoundArith K` = the two C10 facts about `Exp.flattenF` / `Exp.simplify` that
+  `emit_constraint` relies on — HYPOTHESES here (named, not axioms); C10's theorems discharge them. -/
+
+section StageB
+variable [FloorRing K]
+
+theorem ctx_addVar {c : Ctx (Ext K)} (h : CtxOK c) (ρ : String → K) (name : String) (m : K) :
+    CtxOK (c.addVar name (Ext.fin m)) ∧ ctxVal ρ (c.addVar name (Ext.fin m)) = ctxVal ρ c + m * ρ name :=
+  ⟨addVar_ok h name m, addVar_val ρ h name m⟩
+
+theorem ctx_mergeAdd {c o : Ctx (Ext K)} (hc : CtxOK c) (ho : CtxOK o) (ρ : String → K) :
+    CtxOK (c.mergeAdd o) ∧ ctxVal ρ (c.mergeAdd o) = ctxVal ρ c + ctxVal ρ o :=
+  ⟨(mergeAdd_spec ρ hc ho).1, (mergeAdd_spec ρ hc ho).2.1⟩
+
+theorem ctx_mergeSub {c o : Ctx (Ext K)} (hc : CtxOK c) (ho : CtxOK o) (ρ : String → K) :
+    CtxOK (c.mergeSub o) ∧ ctxVal ρ (c.mergeSub o) = ctxVal ρ c - ctxVal ρ o :=
+  ⟨(mergeSub_spec ρ hc ho).1, (mergeSub_spec ρ hc ho).2.1⟩
+
+theorem ctx_mulBy {c : Ctx (Ext K)} (hc : CtxOK c) (ρ : String → K) (m : K) :
+    CtxOK (c.mulBy (Ext.fin m)) ∧ ctxVal ρ (c.mulBy (Ext.fin m)) = ctxVal ρ c * m :=
+  ⟨(mulBy_spec ρ hc m).1, (mulBy_spec ρ hc m).2.1⟩
+
+theorem ctx_divBy {c : Ctx (Ext K)} (hc : CtxOK c) (ρ : String → K) (d : K) (hd : d ≠ 0) :
+    CtxOK (c.divBy (Ext.fin d)) ∧ ctxVal ρ (c.divBy (Ext.fin d)) = ctxVal ρ c / d :=
+  ⟨(divBy_spec ρ hc d hd).1, (divBy_spec ρ hc d hd).2.1⟩
+
+/-- `context_to_exp` round trip. -/
+theorem ctxToExp_roundtrip (ρ : String → K) {c : Ctx (Ext K)} (hc : CtxOK c) :
+    eval ρ (ctxToExp c) = some (ctxVal ρ c) :=
+  ctxToExp_eval ρ hc
+
+/-- `extract_coeffs` followed by the dot product of the linear model is the value of the term list,
+as soon as every variable of the list is in `vars`. -/
+theorem extractCoeffs_dotK (ρ : String → K) (vars : List String) (ts : List (String × Ext K))
+    (hfin : TermsFin ts) (hnd : (ts.map (·.1)).Nodup) (hmem : ∀ p ∈ ts, p.1 ∈ vars) :
+    dotK ρ (extractCoeffs ts vars) vars = some (termsVal ρ ts) := by
+  obtain ⟨h1, h2, h3⟩ := extractCoeffs_spec ρ vars ts hfin hnd hmem
+  rw [dotK_eq ρ _ _ h2 (le_of_eq h1), h3]
+
+/-- The affine fragment of `Exp::linearize`: no auxiliary, no constraint, no state change at all; the
+context mentions only variables of `e`; and it evaluates to the value of `e` wherever that is defined. -/
+theorem linExp_affine (e : Exp (Ext K)) (he : arithOnly e = true) (req : Req) (s s' : St (Ext K))
+    (c : Ctx (Ext K)) (h : linExp e req s = .ok (c, s')) :
+    s' = s ∧ (∀ x ∈ ctxNames c, x ∈ varsOf e) ∧
+      ∀ (ρ : String → K) (v : K), eval ρ e = some v → CtxOK c ∧ ctxVal ρ c = v :=
+  let R := lin_arith e he req s c s' h
+  ⟨R.state, R.names, R.value⟩
+
+/-- `emit_constraint` on an affine comparison: exactly one row is appended, nothing else changes, and the
+row holds iff the comparison does. -/
+theorem emitConstraint_affine (hfl : FlattenSound K) (hsi : SimplifySoundArith K) {S : String → Prop}
+    {lhs rhs : Exp (Ext K)} {cmp : Cmp} {name : String} {s : St (Ext K)} {r : Unit × St (Ext K)}
+    (hl : AG S lhs) (hr : AG S rhs) (h : emitConstraint lhs cmp rhs name s = .ok r) :
+    ∃ row : MidRow (Ext K), r = ((), { s with rows := s.rows ++ [row] }) ∧ row.name = name ∧ row.cmp = cmp ∧
+      (∀ x ∈ row.lhs.map (·.1), S x) ∧
+      ∀ (ρ : String → K) (a b : K), eval ρ lhs = some a → eval ρ rhs = some b →
+        RowOK row ∧ (rowTrue ρ row ↔ cmpK cmp a b = true) :=
+  emit_arith hfl hsi hl hr h
+
+/-- **C01 on purely affine models** (through `flatten`, `simplify`, comparison normalisation of Boolean
+variables against constants, the work-list loop, name de-duplication, the used-variable filter and
+coefficient extraction): the linear model has no auxiliary variable and exactly the source's feasible set. -/
+theorem c01_affine (hfl : FlattenSound K) (hsi : SimplifySoundArith K)
+    {m : Model (Ext K)} {b : BoundsMap (Ext K)} {d : List (DomVar (Ext K))} {lm : LinModel (Ext K)}
+    (h : linearizeWith m b d = .ok lm)
+    (haff : AffineModel m d) (hdef : ∀ c ∈ m.constraints, DefinedC c) (hdom : DomRel m d) :
+    ∀ ρ : String → K, srcFeasible m ρ = true ↔ linFeasible lm ρ = true :=
+  fun ρ => affine_feasible_iff hfl hsi haff hdef hdom h ρ
+
+/-- the same in the shape of the full target (the extension is the assignment itself). -/
+theorem c01_affine' (hfl : FlattenSound K) (hsi : SimplifySoundArith K)
+    {m : Model (Ext K)} {b : BoundsMap (Ext K)} {d : List (DomVar (Ext K))} {lm : LinModel (Ext K)}
+    (h : linearizeWith m b d = .ok lm)
+    (haff : AffineModel m d) (hdef : ∀ c ∈ m.constraints, DefinedC c) (hdom : DomRel m d) (ρ : String → K) :
+    srcFeasible m ρ = true ↔ ∃ ρ' : String → K, (∀ v, inScope d v → ρ' v = ρ v) ∧ linFeasible lm ρ' = true := by
+  constructor
+  · intro hs; exact ⟨ρ, fun _ _ => rfl, (c01_affine hfl hsi h haff hdef hdom ρ).mp hs⟩
+  · rintro ⟨ρ', hag, hl⟩
+    have hs' := (c01_affine hfl hsi h haff hdef hdom ρ').mpr hl
+    -- source feasibility only reads declared, used variables
+    refine (srcFeasible_congr (d := d) ?_ hdom.names hag).mp hs'
+    intro c hc x hx
+    rcases hx with hx | hx
+    · exact (haff.cons c hc).lhs.2 x hx
+    · exact (haff.cons c hc).rhs.2 x hx
+
+end StageB
 
 end Rooc.Props.C01
